@@ -312,3 +312,107 @@ func (r *Run) RequireStore(rule, fnRef, name string, pats ...string) {
 	}
 	r.Check(rule, fnRef+": "+name, r.P.Pos(fn.Pos()), false, fmt.Sprintf("no store matching %v", pats))
 }
+
+// RequireAtStore: every store whose "ADDR := VAL" text matches storePat is dominated
+// by the Reqs.  min = minimum number of matching stores.
+func (r *Run) RequireAtStore(rule, fnRef, storePat string, min int, reqs ...Req) {
+	fn := r.fn(rule, fnRef)
+	if fn == nil {
+		return
+	}
+	ff := r.P.Facts(fn)
+	n := 0
+	for _, s := range ff.StoreFacts() {
+		if !glob(storePat, s.S) {
+			continue
+		}
+		n++
+		var facts []string
+		for _, a := range ff.MustAt(s.In) {
+			facts = append(facts, a.S)
+		}
+		for _, q := range reqs {
+			a, m := matchAny(q.Pats, facts)
+			d := "established by: " + trunc(a, 200)
+			if !m {
+				d = fmt.Sprintf("store %s is reachable without %q (patterns %v)", trunc(s.S, 100), q.Name, q.Pats)
+			}
+			r.Check(rule, fmt.Sprintf("%s store %s: %s", fnRef, trunc(s.S, 80), q.Name), r.P.Pos(s.In.Pos()), m, d)
+		}
+	}
+	if n < min {
+		r.Fail(rule, fmt.Sprintf("%s: stores matching %s", fnRef, storePat), r.P.Pos(fn.Pos()), fmt.Sprintf("anchor-unresolved: expected >= %d store(s) matching %q, found %d", min, storePat, n))
+	}
+	r.Units["stores matched"] += n
+}
+
+// RequireEveryIteration: the (single) call to callee inside a loop of fnRef is
+// executed in every iteration that continues (no path from the loop header to a
+// latch avoids it).
+func (r *Run) RequireEveryIteration(rule, fnRef, callee string) {
+	fn := r.fn(rule, fnRef)
+	if fn == nil {
+		return
+	}
+	ff := r.P.Facts(fn)
+	sites := r.CallSites(fn, callee)
+	if len(sites) == 0 {
+		r.Fail(rule, fnRef+": calls "+callee, r.P.Pos(fn.Pos()), "anchor-unresolved: no call to "+callee)
+		return
+	}
+	for _, cs := range sites {
+		B := cs.Block()
+		lp := ff.innermost[B]
+		if lp == nil {
+			r.Check(rule, fnRef+": "+callee+" is inside the per-element loop", r.P.Pos(cs.Pos()), false, "call is not inside a loop")
+			continue
+		}
+		ok := true
+		reach := ff.reachFrom(lp.Header, B)
+		for _, lt := range lp.Latches {
+			if reach[lt] && lt != B {
+				// reachable while avoiding B: only a problem if the path stays inside the loop
+				if ff.reachWithin(lp, lp.Header, lt, B) {
+					ok = false
+				}
+			}
+		}
+		r.Check(rule, fnRef+": every continuing iteration executes "+callee, r.P.Pos(cs.Pos()), ok,
+			"an iteration can reach the next element without calling "+callee+" (a `continue` or branch bypasses it)")
+	}
+}
+
+// RequireAtStoreAnyPath: for every store matching storePat, every acyclic path to it
+// (within one loop iteration) satisfies at least one of the alternative patterns.
+func (r *Run) RequireAtStoreAnyPath(rule, fnRef, storePat string, min int, q Req) {
+	fn := r.fn(rule, fnRef)
+	if fn == nil {
+		return
+	}
+	ff := r.P.Facts(fn)
+	n := 0
+	for _, s := range ff.StoreFacts() {
+		if !glob(storePat, s.S) {
+			continue
+		}
+		n++
+		paths, ok := ff.PathFacts(s.In.Block(), 4000)
+		r.Units["paths enumerated"] += len(paths)
+		good := ok && len(paths) > 0
+		detail := fmt.Sprintf("%d paths, each satisfies one of %v", len(paths), q.Pats)
+		if !ok {
+			detail = "undecided: too many paths"
+		}
+		for _, p := range paths {
+			if _, m := matchAny(q.Pats, p); !m {
+				good = false
+				detail = fmt.Sprintf("a path reaches the store without %q; path conditions: %s", q.Name, trunc(strings.Join(p, " ; "), 300))
+				break
+			}
+		}
+		r.Check(rule, fmt.Sprintf("%s store %s: %s", fnRef, trunc(s.S, 80), q.Name), r.P.Pos(s.In.Pos()), good, detail)
+	}
+	if n < min {
+		r.Fail(rule, fmt.Sprintf("%s: stores matching %s", fnRef, storePat), r.P.Pos(fn.Pos()), fmt.Sprintf("anchor-unresolved: expected >= %d store(s), found %d", min, n))
+	}
+}
